@@ -27,6 +27,16 @@ def units():
               "function": "command.c:psf_get_format_simple/_major/_subtype/_info + counts; sndfile.c:sf_format_check", "link_sources": ["sndfile.c"],
               "cbmc_flags": ["--object-bits", "9", "--unwind", "80"], "timeout": 900,
               "kind": "proof(list index symbolic; constant tables unwound completely)", "trusted": []})
+    U.append({"name": "command.psf_get_max_all_channels", "props": ["C18", "C17"], "harness": "peak_get.harness.c", "entry": "h_peak_get", "enforce": "psf_get_max_all_channels",
+              "function": "command.c:psf_get_max_all_channels", "defines": ["-DU_ALL"], "timeout": 600, "backend": "kissat", "cbmc_flags": ["--object-bits", "9"],
+              "loops": {"psf_get_max_all_channels": [{"loop_id": 0, "assigns_locals": True, "assigns": "__CPROVER_object_whole (peaks)",
+                        "invariants": "0 <= k && k <= psf->sf.channels && ((0 <= g_idx && g_idx < k) ==> peaks [g_idx] == vin_val)", "decreases": "psf->sf.channels - k"}]},
+              "trusted": []})
+    for ch in (1, 2, 3, 8):
+        U.append({"name": "command.psf_get_signal_max.ch%d" % ch, "props": ["C18", "C17"], "harness": "peak_get.harness.c", "entry": "h_peak_get", "enforce": "psf_get_signal_max",
+                  "function": "command.c:psf_get_signal_max", "defines": ["-DU_MAX", "-DFIX_CH=%d" % ch], "timeout": 600, "backend": "kissat",
+                  "cbmc_flags": ["--object-bits", "9", "--unwindset", "psf_get_signal_max.0:%d" % (ch + 1)], "tier": "quick" if ch in (2, 3) else "thorough",
+                  "kind": "enumerated(channels=%d); loop unwound completely" % ch, "trusted": ["stored peak values are numbers (not NaN)"]})
     return U
 
 
